@@ -21,6 +21,7 @@ import (
 	"fmt"
 	"go/ast"
 	"go/token"
+	"path/filepath"
 	"sort"
 	"strconv"
 	"strings"
@@ -509,6 +510,48 @@ func factsTokens(t *T) (string, error) {
 		}
 	} else {
 		return "", err
+	}
+
+	// the command builders take data characters through checked calls (Consume/Matches/Collect…): the only bare
+	// Parser.Advance() in imap/command is the one at the start of Parser.Parse (it loads the first token of a line)
+	{
+		files, _ := filepath.Glob(filepath.Join(t.Repo, "imap/command/*.go"))
+		sort.Strings(files)
+		bare, inParse := 0, 0
+		var where []string
+		for _, fp := range files {
+			if strings.HasSuffix(fp, "_test.go") {
+				continue
+			}
+			rel, _ := filepath.Rel(t.Repo, fp)
+			f, err := t.ParseFile(rel)
+			if err != nil {
+				return "", err
+			}
+			for _, d := range f.Decls {
+				fd, ok := d.(*ast.FuncDecl)
+				if !ok || fd.Body == nil {
+					continue
+				}
+				ast.Inspect(fd.Body, func(n ast.Node) bool {
+					c, ok := n.(*ast.CallExpr)
+					if !ok {
+						return true
+					}
+					if sel, ok := c.Fun.(*ast.SelectorExpr); ok && sel.Sel.Name == "Advance" && len(c.Args) == 0 {
+						if rel == "imap/command/parser.go" && fd.Name.Name == "Parse" {
+							inParse++
+						} else {
+							bare++
+							where = append(where, rel+":"+fd.Name.Name)
+						}
+					}
+					return true
+				})
+			}
+		}
+		fmt.Fprintf(&sb, "Definition builders_bare_advance_calls : N := %d.   (* Advance() outside Parser.Parse in imap/command: %s *)\n", bare, strings.Join(where, " "))
+		fmt.Fprintf(&sb, "Definition parse_initial_advance_calls : N := %d.\n", inParse)
 	}
 
 	// parseListMailbox: is a string (quoted / literal) recognised before the list-char atom?
